@@ -4,7 +4,7 @@
 specialization `sp`:
 
     {"spec": <specialization>, "kernel": <kernel>, "args": {name: value, ...},
-     "valid": bool, "siblings": [...], "corner": <tag or absent>, "model": <name>}
+     "valid": bool, "siblings": [...], "corner": <tag or absent>}
 
 `args` holds every `in` argument (lists for arrays, list of lists for
 List[List[T]]) and the initial contents of in/out arguments.  Output extents
